@@ -56,6 +56,8 @@ PROPS = {
     "C20": {
         "title": "Strings behave exactly like the character lists they denote",
         "v_units": ["heap", "pstrcmp", "pstrunify"], "sweep": "strlist",
+        # builtins that walk strings (skip_max_list, atom/char conversions) live outside the anchor files
+        "extra_files": ["src/machine/system_calls.rs", "src/lib/lists.pl", "src/lib/builtins.pl"],
         "ob_filter": {"heap": [r"^(pstr_sentinel_length|Heap_heap_cell_alignment|Heap_pstr_tail_idx|ReservedHeapSection_push_pstr_segment|ReservedHeapSection_push_pstr|scan_slice_to_str_from_start|Heap_compute_pstr_size)::", r"^lemma::(lemma_layout_agreement|lemma_scan_is_seg|lemma_first_zero_bounds|lemma_pstr_cells_nonneg|lemma_pushed_nonneg|lemma_reservation_suffices|lemma_first_zero_is_zero)$"]},
         "k_groups": [],
         "replay": "heap",
@@ -65,7 +67,8 @@ PROPS = {
         "title": "Clause selection returns exactly the clauses whose heads unify",
         "v_units": ["indexkey", "indexmerge", "switchsel"], "s_checks": ["switch_routes", "lookahead", "dynamic_dead_end"],
         "k_groups": [],
-        "replay": "index",
+        "replay": "index", "sweep_quick": True,   # the recorded finding (assertz after asserta) is replayed on every run
+
         "level": "proof",
     },
     "C18": {
